@@ -1,4 +1,5 @@
 import SigHook.Model.RegistryConc
+import SigHook.Lemmas.RegistryConcLive
 import SigHook.Props.C18
 import SigHook.Props.C01
 /-!
@@ -111,5 +112,154 @@ theorem C03_dispatch_plan_ops (env : Registry.Env) (ye : Nat) (s s' : Sys) (t : 
 per action, 2 to unpin -/
 def deliveryBound (pv : Option Registry.Disp) (tags : List Nat) : Nat :=
   8 + (if pv.isSome then 1 else 0) + tags.length
+
+
+/-! ## The whole delivery, in every reachable state of the concurrent registry -/
+
+open SigHook.Registry (Disp Env)
+
+/-- **C03.registry_delivery_step** — in every reachable state (any number of threads, whatever
+they are in the middle of), a thread inside a delivery can take its next step; that step is an
+atomic load / fetch_add / fetch_sub, the call of the chained handler or of an action - never a
+lock, a spin, a yield, an allocation or a release (`dropped = []`) - and leaves the thread inside
+the same delivery or finished with it. -/
+theorem C03_registry_delivery_step {env : Env} {ye : Nat} {disp : List (Int × Disp)}
+    {scripts : List (List Op)} {s : Sys} {t : Nat} {th : Thread} {sig : Int}
+    (hr : Reachable env ye disp scripts s) (hth : s.threads[t]? = some th)
+    (hd : deliverySig th.pc = some sig) :
+    ∃ s' out, step env ye s t = some (s', out) ∧ out.ev.handlerSafe = true ∧ out.dropped = [] ∧
+      ∃ th', s'.threads[t]? = some th' ∧ (deliverySig th'.pc = some sig ∨ th'.pc = .idle) := by
+  have hI := inv6_reachable hr
+  have ok := ownok_reachable hr
+  have ht := (List.getElem?_eq_some_iff.1 hth).1
+  have hne : th.pc ≠ .idle := by intro h; rw [h] at hd; cases hd
+  obtain ⟨s', out, hs⟩ := step_enabled6 (ye := ye) hI (by rw [ok.2]; exact ok.1) hth (Or.inl hne)
+    (by intro op h; rw [h] at hd; cases hd)
+  refine ⟨s', out, hs, ?_⟩
+  have h6 := step6_of hI hth hs
+  cases h6 with
+  | fbStep sg hf' p o hpc mv hp ho =>
+    rw [hpc] at hd; injection hd with hd; subst hd
+    refine ⟨?_, rfl, _, setT_get _ _ _ (by simpa using ht), Or.inl rfl⟩
+    rcases ho with ⟨v, rfl⟩ | ⟨l, v, rfl⟩ <;> rfl
+  | fbPin sg hf' hpc mv =>
+    rw [hpc] at hd; injection hd with hd; subst hd
+    exact ⟨rfl, rfl, _, setT_get _ _ _ (by simpa using ht), Or.inl rfl⟩
+  | dataStep sg hd' p o pf hpc hcF mv hp ho =>
+    rw [hpc] at hd; injection hd with hd; subst hd
+    refine ⟨?_, rfl, _, setT_get _ _ _ (by simpa using ht), Or.inl rfl⟩
+    rcases ho with ⟨v, rfl⟩ | ⟨l, v, rfl⟩ <;> rfl
+  | dataPin sg hd' pf hpc hcF mv =>
+    rw [hpc] at hd; injection hd with hd; subst hd
+    exact ⟨rfl, rfl, _, setT_get _ _ _ (by simpa using ht), Or.inl rfl⟩
+  | prev sg d tags hpc =>
+    rw [hpc] at hd; injection hd with hd; subst hd
+    exact ⟨rfl, rfl, _, setT_get _ _ _ ht, Or.inl rfl⟩
+  | run sg tag rest hpc =>
+    rw [hpc] at hd; injection hd with hd; subst hd
+    exact ⟨rfl, rfl, _, setT_get _ _ _ ht, Or.inl rfl⟩
+  | relD sg hd' p l v hpc mv =>
+    rw [hpc] at hd; injection hd with hd; subst hd
+    exact ⟨rfl, rfl, _, setT_get _ _ _ (by simpa using ht), Or.inl rfl⟩
+  | relF sg hf' p l v hpc mv =>
+    rw [hpc] at hd; injection hd with hd; subst hd
+    exact ⟨rfl, rfl, _, setT_get _ _ _ (by simpa using ht), Or.inr rfl⟩
+  | _ => simp_all [deliverySig]
+
+
+/-- own steps until the delivery has both snapshots pinned (at most 6) -/
+def preSteps (s : Sys) (t : Nat) : Pc → Nat
+  | .dFb _ => HalfLock.preA (HalfLock.pcAt s.hf t) + 3
+  | .dData _ => HalfLock.preA (HalfLock.pcAt s.hd t)
+  | _ => 0
+
+/-- own steps left once the plan is fixed: the chained handler, one per action, two guard drops -/
+def postSteps : Pc → Nat
+  | .dPlan _ pv tags => (if pv.isSome then 1 else 0) + tags.length + 2
+  | .dRelF _ => 1
+  | _ => 0
+
+theorem preA_le (pc : HalfLock.Pc) : HalfLock.preA pc ≤ 3 := by cases pc <;> simp [HalfLock.preA]
+
+theorem preA_hold {h : HalfLock.Sys} {t p u : Nat} (hp : HalfLock.phaseAt h t = .rHold p u) :
+    HalfLock.preA (HalfLock.pcAt h t) = 0 := by
+  obtain ⟨sl, e⟩ := (phase_rHold _ _ _).1 hp
+  rw [e]; rfl
+
+theorem preA_idle {h : HalfLock.Sys} {t : Nat} (hp : HalfLock.phaseAt h t = .idle) :
+    HalfLock.preA (HalfLock.pcAt h t) = 3 := by
+  rw [(phase_idle _).1 hp]; rfl
+
+/-- **C03.registry_delivery_bounded** — the exact count. In every reachable state each own step of
+a delivery decreases, by exactly one, first the number of steps until both snapshots are pinned
+(`preSteps ≤ 6`), then - the plan being fixed at the pin - the number of steps left
+(`postSteps` = chained handler + actions of the pinned list + 2). No other thread's step can
+change either number (they depend on this thread's program counters only). A delivery therefore
+completes in exactly `6 + postSteps(plan)` own steps, wherever every other thread is paused. -/
+theorem C03_registry_delivery_bounded {env : Env} {ye : Nat} {disp : List (Int × Disp)}
+    {scripts : List (List Op)} {s s' : Sys} {t : Nat} {th th' : Thread} {out : StepOut} {sig : Int}
+    (hr : Reachable env ye disp scripts s) (hth : s.threads[t]? = some th)
+    (hd : deliverySig th.pc = some sig) (hs : step env ye s t = some (s', out))
+    (hth' : s'.threads[t]? = some th') :
+    preSteps s t th.pc ≤ 6 ∧
+    ((0 < preSteps s t th.pc ∧ preSteps s' t th'.pc + 1 = preSteps s t th.pc) ∨
+     (preSteps s t th.pc = 0 ∧ preSteps s' t th'.pc = 0 ∧ postSteps th'.pc + 1 = postSteps th.pc)) := by
+  have hI := inv6_reachable hr
+  have ht := (List.getElem?_eq_some_iff.1 hth).1
+  have hc := hI.coh t th hth
+  have h6 := step6_of hI hth hs
+  cases h6 with
+  | fbStep sg hf' p o hpc mv hp ho =>
+    rw [setT_get _ _ _ (by simpa using ht)] at hth'; injection hth' with hth'; subst hth'
+    rw [hpc]
+    have := mv.pre (by rcases hp with h | h; exact Or.inl h; exact Or.inr ⟨0, h⟩) (Or.inl ⟨0, rfl⟩)
+    have hle := preA_le (HalfLock.pcAt s.hf t)
+    refine ⟨by simp only [preSteps]; omega, Or.inl ⟨by simp only [preSteps]; omega, ?_⟩⟩
+    show HalfLock.preA (HalfLock.pcAt hf' t) + 3 + 1 = HalfLock.preA (HalfLock.pcAt s.hf t) + 3
+    omega
+  | fbPin sg hf' hpc mv =>
+    rw [setT_get _ _ _ (by simpa using ht)] at hth'; injection hth' with hth'; subst hth'
+    rw [hpc] at hc ⊢; simp only [CohT] at hc
+    have := mv.pre (Or.inr ⟨0, rfl⟩) (Or.inr ⟨_, 0, rfl⟩)
+    have h0 := preA_hold mv.after
+    have h3 := preA_idle hc.1
+    have hle := preA_le (HalfLock.pcAt s.hf t)
+    refine ⟨by simp only [preSteps]; omega, Or.inl ⟨by simp only [preSteps]; omega, ?_⟩⟩
+    show HalfLock.preA (HalfLock.pcAt s.hd t) + 1 = HalfLock.preA (HalfLock.pcAt s.hf t) + 3
+    omega
+  | dataStep sg hd' p o pf hpc hcF mv hp ho =>
+    rw [setT_get _ _ _ (by simpa using ht)] at hth'; injection hth' with hth'; subst hth'
+    rw [hpc]
+    have := mv.pre (by rcases hp with h | h; exact Or.inl h; exact Or.inr ⟨0, h⟩) (Or.inl ⟨0, rfl⟩)
+    have hle := preA_le (HalfLock.pcAt s.hd t)
+    refine ⟨by simp only [preSteps]; omega, Or.inl ⟨by simp only [preSteps]; omega, ?_⟩⟩
+    show HalfLock.preA (HalfLock.pcAt hd' t) + 1 = HalfLock.preA (HalfLock.pcAt s.hd t)
+    omega
+  | dataPin sg hd' pf hpc hcF mv =>
+    rw [setT_get _ _ _ (by simpa using ht)] at hth'; injection hth' with hth'; subst hth'
+    rw [hpc]
+    have := mv.pre (Or.inr ⟨0, rfl⟩) (Or.inr ⟨_, 0, rfl⟩)
+    have h0 := preA_hold mv.after
+    have hle := preA_le (HalfLock.pcAt s.hd t)
+    refine ⟨by simp only [preSteps]; omega, Or.inl ⟨by simp only [preSteps]; omega, ?_⟩⟩
+    show 0 + 1 = HalfLock.preA (HalfLock.pcAt s.hd t)
+    omega
+  | prev sg d tags hpc =>
+    rw [setT_get _ _ _ ht] at hth'; injection hth' with hth'; subst hth'
+    rw [hpc]
+    exact ⟨by simp [preSteps], Or.inr ⟨rfl, rfl, by simp [postSteps]; omega⟩⟩
+  | run sg tag rest hpc =>
+    rw [setT_get _ _ _ ht] at hth'; injection hth' with hth'; subst hth'
+    rw [hpc]
+    exact ⟨by simp [preSteps], Or.inr ⟨rfl, rfl, by simp [postSteps]⟩⟩
+  | relD sg hd' p l v hpc mv =>
+    rw [setT_get _ _ _ (by simpa using ht)] at hth'; injection hth' with hth'; subst hth'
+    rw [hpc]
+    exact ⟨by simp [preSteps], Or.inr ⟨rfl, rfl, by simp [postSteps]⟩⟩
+  | relF sg hf' p l v hpc mv =>
+    rw [setT_get _ _ _ (by simpa using ht)] at hth'; injection hth' with hth'; subst hth'
+    rw [hpc]
+    exact ⟨by simp [preSteps], Or.inr ⟨rfl, rfl, by simp [postSteps]⟩⟩
+  | _ => simp_all [deliverySig]
 
 end SigHook.RegConc
